@@ -337,7 +337,10 @@ class LedgerBase:
                         if rv.kind == 'agg' and rv.j.get('ak') == 'coroutine' and dst is not None and rv.j['def'] in prog.bodies and self.is_local(prog.bodies[rv.j['def']]):
                             lf.add((dst, rv.j['def'], False))
                         if dst is not None and dst in tr:
-                            ini.add(dst)
+                            if rv.kind == 'agg' and rv.j.get('ak') == 'adt' and rv.j.get('variant') == 'None':
+                                ini.discard(dst)          # an empty Option owns nothing
+                            else:
+                                ini.add(dst)
                     elif s.kind == 'dead':
                         ini.discard(s.local)
                         fl = {f_ for f_ in fl if not (isinstance(f_, tuple) and f_[0] == 'pend' and f_[1] == s.local)}
@@ -494,6 +497,8 @@ class LedgerBase:
                             pv, pn = self.pend_effect(f_[2])
                             v2 = vadd(v2, pv); self._ev(b)
                             note2 = (note2 + ', ' if note2 else '') + pn + ' (dropped unexamined)'
+                        if l in ini2 and l in tr and tr[l].startswith('opt') and _var_of(fl, l) == 'None':
+                            ini2.discard(l)               # known to be None on this path
                         if l in ini2 and l in tr:
                             de = self.drop_effect(tr[l])
                             self._ev(b)
